@@ -87,4 +87,16 @@ theorem compile_meaning (σ : Schedule) (g : Grammar) (sh : Shell) (c : Compiled
     exact raw_automaton_correct σ c.valid.expr [] _ c.raw.main hsym hend hraw w
   · exact minimize_acceptsInp σ c.raw.main c.min.main (buildAuto_WF σ _ _ _ hraw) hmin w
 
+/-- the number of states of the minimised automaton does not depend on the iteration order of the
+minimiser's hash containers: both results are smallest automata of the same language -/
+theorem minimize_size_schedule_irrelevant (σ₁ σ₂ : Schedule) (a m₁ m₂ : Auto) (hwf : Min.WF a)
+    (hco : Min.CoAcc a) (hacc : Min.Access a) (h₁ : Min.minimize σ₁ a = some m₁)
+    (h₂ : Min.minimize σ₂ a = some m₂) :
+    m₁.states.length = m₂.states.length ∧ ∀ w, m₁.accepts w = m₂.accepts w := by
+  have l₁ := Min.minimize_lang σ₁ a m₁ hwf h₁
+  have l₂ := Min.minimize_lang σ₂ a m₂ hwf h₂
+  refine ⟨Nat.le_antisymm ?_ ?_, fun w => (l₁ w).trans (l₂ w).symm⟩
+  · exact Min.minimize_minimal_card σ₁ a m₁ hwf hco hacc h₁ m₂ l₂
+  · exact Min.minimize_minimal_card σ₂ a m₂ hwf hco hacc h₂ m₁ l₁
+
 end Complgen.Pipeline
